@@ -853,6 +853,22 @@ func (in *Interp) prelude(fn *ssa.Function, name string, args []Value) (Value, b
 			}
 		}
 		return ts.Bool(int64(n) == in.cint(args[1])), true
+	case "zzWakes":
+		// engine: run op and report whether it issued a Broadcast/Signal (the
+		// waiter is not executed); natively a real consumer goroutine is used
+		cnt := func() int {
+			n := 0
+			for _, ev := range in.events {
+				if ev == "cond-broadcast" {
+					n++
+				}
+			}
+			return n
+		}
+		before := cnt()
+		op := args[1].(*Closure)
+		in.call(op.Fn, nil, op.Env)
+		return ts.Bool(cnt() > before), true
 	case "zzIte":
 		return ts.Ite(args[0].(*Term), args[1].(*Term), args[2].(*Term)), true
 	case "zzImplies":
